@@ -101,7 +101,7 @@ func run(c *vf.Ctx) {
 		replay(c)
 		return
 	}
-	n := c.N(6, 72)
+	n := c.N(6, 160)
 	tmp := vf.TempDir("c18")
 	defer os.RemoveAll(tmp)
 	outs := make([]caseOut, n)
@@ -178,7 +178,7 @@ func judge(c *vf.Ctx, o caseOut) {
 	sort.Slice(o.Bad, func(i, j int) bool { return o.Bad[i].Idx < o.Bad[j].Idx })
 	for _, b := range o.Bad {
 		if len(b.Problems) == 0 {
-			c.Inconclusive(b.Inconcl)
+			c.Inconclusive(strings.SplitN(b.Inconcl, ":", 2)[0])
 			continue
 		}
 		// one violation per request; the most specific failure class names it
